@@ -200,3 +200,56 @@ def gen_compare(tier, rng):
     # outside the domain: unequal lengths
     cases.append({"vs": [[1, 2], [1]]})
     return cases
+
+
+# ------------------------------------------------------------------ spike_test
+
+class Spike(Adapter):
+    name = "spike_test"
+    imports = ["Base", "Spike"]
+
+    def impl(self, case):
+        from ioos_qc import qartod
+
+        kw = {"inp": core.to_float_array([unfr(x) for x in case["xs"]])}
+        if case["st"] != "absent":
+            kw["suspect_threshold"] = None if case["st"] is None else float(unfr(case["st"]))
+        if case["ft"] != "absent":
+            kw["fail_threshold"] = None if case["ft"] is None else float(unfr(case["ft"]))
+        if case["method"] is not None:
+            kw["method"] = case["method"]
+        return core.call_impl(qartod.spike_test, kw)
+
+    @staticmethod
+    def _thr(v):
+        return "None" if v in (None, "absent") else f"(Some {q(unfr(v))})"
+
+    def model(self, case):
+        m = core.coq_string(case["method"] if case["method"] is not None else "average")
+        return (f"(spike_model {m} {self._thr(case['st'])} {self._thr(case['ft'])} "
+                f"{obs_list([unfr(x) for x in case['xs']])})")
+
+    def in_domain(self, case):
+        return len(case["xs"]) >= 1
+
+
+def gen_spike(tier, rng):
+    alpha = [None, F(0), F(1), F(2), F(5, 2), F(4)]
+    thr = [None, F(0), F(1), F(2)]
+    cases = []
+    L = 3 if tier == "quick" else 4
+    for xs in series_cases(alpha, L, rng):
+        for method in ("average", "differential"):
+            for st in thr:
+                for ft in thr:
+                    cases.append({"xs": frs(xs), "method": method, "st": core.fr(st), "ft": core.fr(ft)})
+    for _ in range(1500 if tier == "quick" else 15000):
+        n = rng.randint(4, 9)
+        xs = [rng.choice(alpha + [F(-3), F(7, 2)]) for _ in range(n)]
+        cases.append({"xs": frs(xs), "method": rng.choice(["average", "differential", None]),
+                      "st": rng.choice([core.fr(t) for t in thr] + ["absent", core.fr(F(1, 2))]),
+                      "ft": rng.choice([core.fr(t) for t in thr] + ["absent", core.fr(F(3))])})
+    for m in ("median", "", "Average"):
+        cases.append({"xs": frs([F(1), F(5), F(1)]), "method": m, "st": "1", "ft": "2"})
+        cases.append({"xs": [], "method": m, "st": "1", "ft": "2"})
+    return cases
